@@ -2,6 +2,7 @@ import Orx.IW.Outs
 import Orx.IW.HB
 import Orx.IW.Weak
 import Orx.Generated.Orderings
+import Orx.GenThms.ProtoSim
 /-! # C07 Wrapped iterator is used exclusively and in order -/
 namespace Orx.Props.C07
 open Orx Orx.IW
@@ -120,5 +121,48 @@ example :
     let ps : Nat → List Req := fun t => if t < 2 then [.single false] else []
     let c := runS s ([0,0,0,0,0,0,0,0, 1,1,1].map (·, Stale.fresh) ++ [(1, .yOld 0), (1, .cOld), (1, .fresh)]) (init ps)
     c.Y = 1 ∧ (c.th 1).pc = .ent (.single false) 1 := by decide
+
+
+/-! ## The protocol model is the source's (translation, every run)
+
+`tools/rs2lean.py` translates `progress_and_get_begin_idx`, `get`, `fetch_one`, `fetch_n` (and the entry points
+`next_id_and_value`, `next_chunk`, `skip_to_end`) of the current source into program trees on every run
+(`Generated/ProtoIter.lean`); `GenThms/Proto.lean` computes them, `GenThms/ProtoSim.lean` relates them to this model. -/
+
+/-- **Every thread of the model executes the translated source**: in every reachable configuration, the access the
+thread performs next is the root of its residual program `treeAt k pc`, the step of the model is that access against the
+shared memory, and what remains is the tree's child for the value read. -/
+theorem source_protocol_is_the_models (s : Script) (ps : Nat → List Req)
+    (hps : ∀ t, ∀ r ∈ ps t, GenThms.Proto.Covered r) (σ : List Nat) (hW : (run s σ (init ps)).R < W) (t k : Nat) (hk : 1 ≤ k)
+    (ha : actOf ((run s σ (init ps)).th t).pc ≠ none) :
+    let c := run s σ (init ps)
+    let pc := (c.th t).pc
+    GenThms.Proto.head (GenThms.Proto.treeAt k pc) = actOf pc ∧
+    GenThms.Proto.child (GenThms.Proto.treeAt k pc) (respOf s c pc) =
+      some (GenThms.Proto.contOf k pc (lstep pc (respOf s c pc))) ∧
+    step s t c = setTh (effOf c pc) t (applyL (c.th t) (lstep pc (respOf s c pc))) :=
+  GenThms.Proto.model_thread_follows_source s ps hps σ hW t k hk ha
+
+/-- at the start of a request the residual program is the translated Rust function itself -/
+theorem source_requests_are_the_translated_functions (k : Nat) :
+    (∀ l, GenThms.Proto.reqTree k (.single l) = GenThms.Proto.treeAt k (.resv (.single l))) ∧
+    (∀ n, 1 ≤ n → GenThms.Proto.reqTree k (.chunk n) = GenThms.Proto.treeAt k (.resv (.chunk n))) ∧
+    GenThms.Proto.reqTree k .skip = GenThms.Proto.treeAt k .skp :=
+  ⟨GenThms.Proto.reqTree_single k, GenThms.Proto.reqTree_chunk k, GenThms.Proto.reqTree_skip k⟩
+
+/-- the wrapped iterator is entered in the source only behind a `SeqCst` load of `completed` that read `false`, itself
+behind an `Acquire` load of `yielded` that read the thread's own ticket: the two guards of the critical section, as
+written in `get` (the tree of its spin loop, for every fuel and every continuation) -/
+theorem source_entry_is_guarded {β : Type} (K : Option Nat → RSP.Prog β) (k b : Nat) :
+    GenThms.Proto.tGetLoop K (k + 1) b = .ldN .Y .acquire fun y =>
+      if b < y then K none
+      else if b = y then .ldB .C .seqcst fun c => if c then K none else GenThms.Proto.tPollOne K
+      else .ldB .C .relaxed fun c => if c then K none else GenThms.Proto.tGetLoop K k b := rfl
+
+/-- the crate's own `assert_eq!(older_count, begin_idx)` never fires -/
+theorem source_publish_assertion_never_fires (s : Script) (ps : Nat → List Req) (hps : ∀ t, ∀ r ∈ ps t, ReqOk r)
+    (σ : List Nat) (hW : (run s σ (init ps)).R < W) (t : Nat) (r : Req) (b : Nat) (acc : List Nat)
+    (hpc : ((run s σ (init ps)).th t).pc = .pub r b acc) : (run s σ (init ps)).Y = b :=
+  GenThms.Proto.publish_assertion_holds s ps hps σ hW t r b acc hpc
 
 end Orx.Props.C07
